@@ -41,6 +41,26 @@ Theorem C04_callbacks_at_most_once :
 Proof. exact callbacks_once_lemma. Qed.
 Print Assumptions C04_callbacks_at_most_once.
 
+(* every node transferred by a successful copy: exactly one PreCopy, exactly one
+   PostCopy, no OnCopySkipped ... *)
+Theorem C04_transferred_exactly_once :
+  forall (g : graph) (c : cfg) (d0 : list node) (tr : list event) (st : state)
+         (n : node) (ref : bool),
+    accepts g c d0 tr = Some st -> returned st = Some true ->
+    In (PuE n ref POk) tr ->
+    cnt (is_cb CPre n) tr = 1 /\ cnt (is_cb CPost n) tr = 1 /\ cnt (is_cb CSkip n) tr = 0.
+Proof. exact transferred_exactly_once. Qed.
+Print Assumptions C04_transferred_exactly_once.
+
+(* ... in that order: PreCopy before the push completes, PostCopy after it *)
+Theorem C04_push_between_callbacks :
+  forall (g : graph) (c : cfg) (d0 : list node) (tr1 : list event) (n : node) (ref : bool)
+         (tr2 : list event) (st : state),
+    accepts g c d0 (tr1 ++ PuE n ref POk :: tr2) = Some st ->
+    In (Cb CPre n) tr1 /\ ~ In (Cb CPost n) tr1.
+Proof. exact push_between_callbacks. Qed.
+Print Assumptions C04_push_between_callbacks.
+
 (* a node's PostCopy comes after the terminal notification (PostCopy or OnCopySkipped)
    of each of its non-foreign successors; the only node that completes without a
    notification is the already-present root of a ReferencePusher copy (prepareCopy
